@@ -15,11 +15,11 @@ import (
 
 type bigEnv struct {
 	phiBusy map[*ssa.Phi]bool
-	f     *ssa.Function
-	names map[ssa.Value]string // leaves (params, fields…)
-	cenv  *canonEnv
-	depth int
-	globs map[string]*X // known constant big globals ("pkgpath.one" -> K(1))
+	f       *ssa.Function
+	names   map[ssa.Value]string // leaves (params, fields…)
+	cenv    *canonEnv
+	depth   int
+	globs   map[string]*X // known constant big globals ("pkgpath.one" -> K(1))
 }
 
 func newBigEnv(f *ssa.Function, names map[ssa.Value]string) *bigEnv {
@@ -330,6 +330,16 @@ func (e *bigEnv) fieldPath(fa *ssa.FieldAddr) string {
 	case *ssa.Field:
 		return e.valuePath(b) + "." + name
 	case *ssa.Alloc:
+		// a struct variable initialised once from a value (a by-value parameter, a call result) and only read afterwards
+		if v := structInit(b); v != nil {
+			if n, ok := e.names[v]; ok {
+				return n + "." + name
+			}
+			switch v.(type) {
+			case *ssa.Parameter, *ssa.Call, *ssa.Extract:
+				return strings.TrimPrefix(e.plain(v, nil).String(), "call:") + "." + name
+			}
+		}
 		if pt, ok := b.Type().Underlying().(*types.Pointer); ok {
 			return "local(" + shortType(pt.Elem()) + ")." + name
 		}
@@ -428,7 +438,14 @@ func (e *bigEnv) plain(v ssa.Value, at ssa.Instruction) *X {
 		}
 		return Op("call:"+name, xs...)
 	case *ssa.Extract:
+		if ta, ok := x.Tuple.(*ssa.TypeAssert); ok && x.Index == 0 {
+			return Op("as:"+shortType(ta.AssertedType), e.plain(ta.X, at))
+		}
 		return Op("res"+string(rune('0'+x.Index)), e.plain(x.Tuple, at))
+	case *ssa.TypeAssert:
+		if !x.CommaOk {
+			return Op("as:"+shortType(x.AssertedType), e.plain(x.X, at))
+		}
 	case *ssa.UnOp:
 		if x.Op == token.MUL {
 			if fa, ok := x.X.(*ssa.FieldAddr); ok && !isBigIntPtr(v.Type()) {
@@ -560,4 +577,41 @@ func singleStore(al *ssa.Alloc) ssa.Value {
 		return v
 	}
 	return nil
+}
+
+// structInit: the value a struct cell was initialised with, when the cell is stored exactly once as a whole
+// and afterwards only read (loads and field loads; no field stores, no escape)
+func structInit(al *ssa.Alloc) ssa.Value {
+	var v ssa.Value
+	n := 0
+	var readOnly func(addr ssa.Value) bool
+	readOnly = func(addr ssa.Value) bool {
+		for _, u := range *addr.Referrers() {
+			switch x := u.(type) {
+			case *ssa.Store:
+				if x.Addr == addr && addr == ssa.Value(al) {
+					v = x.Val
+					n++
+					continue
+				}
+				return false
+			case *ssa.UnOp:
+				if x.Op != token.MUL {
+					return false
+				}
+			case *ssa.FieldAddr:
+				if !readOnly(x) {
+					return false
+				}
+			case *ssa.DebugRef:
+			default:
+				return false
+			}
+		}
+		return true
+	}
+	if !readOnly(al) || n != 1 {
+		return nil
+	}
+	return v
 }
